@@ -244,6 +244,8 @@ static int runCase(const std::vector<string>& lines)
   std::map<string, Foreign> foreign;     // "C", "S", "D", "Y"
   bool destroying = false;
   int64_t lastSeq = 0;
+  Channel* chanPtr = NULL;
+  int chanSock = -1;
   {
     // sequence numbers of timers are global and monotone: everything above lastSeq is new
     Timer probe([]() {}, Timestamp(), 0.0);
@@ -441,7 +443,13 @@ static int runCase(const std::vector<string>& lines)
       if (p)
       {
         kst = std::to_string(static_cast<int>(p->state_)) + "/" + (p->connect_ ? "1" : "0") + "/";
-        if (p->channel_) kst += std::to_string(lookup(p->channel_->fd())) + ":" + (p->channel_->addedToLoop_ ? "1" : "0");
+        if (p->channel_)
+        {
+          // a registered channel's descriptor is open, so the table is current; once unregistered (descriptor closed,
+          // number possibly reused) keep the logical socket seen while it was registered
+          if (p->channel_->addedToLoop_ || p->channel_.get() != chanPtr) { chanPtr = p->channel_.get(); chanSock = lookup(p->channel_->fd()); }
+          kst += std::to_string(chanSock) + ":" + (p->channel_->addedToLoop_ ? "1" : "0");
+        }
         else kst += "-";
         kst += "/" + std::to_string(p->retryDelayMs_);
       }
